@@ -128,6 +128,26 @@ def delete : Node → Path → Node
       | .empty => .empty
       | m => .ext k m
 
+/-! ### Well-formedness: the invariants of doc.go:31-37 -/
+
+namespace Node
+def isExt : Node → Bool
+  | .ext _ _ => true
+  | _ => false
+end Node
+
+/-- number of non-empty children among the 17 (value slot included). -/
+def count (cs : Nib → Node) (v : Option Val) : Nat := (kids cs).length + (if v.isSome then 1 else 0)
+
+/-- doc.go:31-37: a branch has at least 2 children; an extension has a non-empty key and its next
+node is neither another extension nor empty (extension.go:80: "e.next is never empty"). The value
+slot of a branch holds a leaf or nothing by the shape of `Node`. -/
+def WF : Node → Prop
+  | .empty => True
+  | .leaf _ => True
+  | .ext k n => k ≠ [] ∧ n.isEmpty = false ∧ n.isExt = false ∧ WF n
+  | .branch cs v => (∀ i, WF (cs i)) ∧ 2 ≤ count cs v
+
 /-! ### Batches (batch.go) -/
 
 /-- one change: `none` = deletion (`value == nil`). -/
@@ -283,6 +303,17 @@ def putBatch (t : Node) (kv : Batch) : Node :=
   | [] => t
   | _ => putBatchNode t kv
 
+/-! ### Specification of a batch: the first entry for a key decides -/
+
+/-- contents after a batch: `some v` = put, `none` = delete. -/
+def applyBatch (f : Path → Option Val) (kv : Batch) (p : Path) : Option Val :=
+  match kv.lookup p with
+  | some ov => ov
+  | none => f p
+
+/-- the keys of a batch are pairwise different (a batch comes from a Go map). -/
+def DistinctKeys (kv : Batch) : Prop := (kv.map (·.1)).Nodup
+
 /-! ### MapToMPTBatch: sort the changes by key -/
 
 /-- bytes.Compare on nibble strings: `a < b`. -/
@@ -312,16 +343,18 @@ def childRef (H : Bytes → Bytes) (n : Node) (e : Bytes) : Bytes :=
 
 def encLeaf (v : Val) : Bytes := 2 :: varBytes v
 
+/-- the 17th child of a branch (a LeafNode or EmptyNode) as referenced in the branch's encoding. -/
+def slotRef (H : Bytes → Bytes) : Option Val → Bytes
+  | none => [4]
+  | some w => 3 :: H (encLeaf w)
+
 /-- base.go:75-79 `encodeNodeWithType` (`Bytes()` of a node). -/
 def enc (H : Bytes → Bytes) : Node → Bytes
   | .empty => [4]
   | .leaf v => encLeaf v
   | .ext k n => 1 :: (varBytes (k.map nibByte) ++ childRef H n (enc H n))
   | .branch cs v =>
-    0 :: ((List.finRange 16).flatMap (fun i => childRef H (cs i) (enc H (cs i))) ++
-      (match v with
-       | none => [4]
-       | some w => 3 :: H (encLeaf w)))
+    0 :: ((List.finRange 16).flatMap (fun i => childRef H (cs i) (enc H (cs i))) ++ slotRef H v)
 
 /-- `Node.Hash()`: `H` stands for `hash.DoubleSha256`. -/
 def hash (H : Bytes → Bytes) (n : Node) : Bytes := H (enc H n)
